@@ -1296,6 +1296,9 @@ func dstOfRoute(c *cmd) routeDst {
 		// ASA: ipv6 route intf ip/len gw
 		// IOS: ipv6 route [vrf NAME] ip/len gw
 		i := slices.IndexFunc(l, func(e string) bool { return strings.Contains(e, "/") })
+		if i < 0 {
+			errlog.Abort("Invalid route: %s", c.orig)
+		}
 		ipp, _ = netip.ParsePrefix(l[i])
 		if len(l) >= 6 && l[2] == "vrf" {
 			vrf = l[3]
@@ -1304,9 +1307,12 @@ func dstOfRoute(c *cmd) routeDst {
 		// ASA: route intf ip mask gw
 		// IOS: ip route [vrf NAME] ip mask gw
 		i := 2
-		if l[0] == "ip" && l[2] == "vrf" {
+		if l[0] == "ip" && len(l) > 3 && l[2] == "vrf" {
 			vrf = l[3]
 			i = 4
+		}
+		if len(l) < i+2 {
+			errlog.Abort("Invalid route: %s", c.orig)
 		}
 		ip, err1 := netip.ParseAddr(l[i])
 		mask, err2 := netip.ParseAddr(l[i+1])
@@ -1550,7 +1556,7 @@ func (s *State) alignVRFs() {
 	}
 	routeVRF := func(c *cmd) string {
 		tokens := strings.Fields(c.parsed)
-		if tokens[2] == "vrf" {
+		if len(tokens) > 3 && tokens[2] == "vrf" {
 			return tokens[3]
 		}
 		return ""
